@@ -103,6 +103,24 @@ def gen_case(impl, rng):
         else:
             val = nc.gen_tree(impl, rng, 2)
         skeys[key] = val
+    # cascades: a replacement turns an ancestor into (a term equal to) another key
+    if rng.random() < 0.35:
+        cands_ = [v for _, v in allsub if v[0] == 'T' and any(c[0] == 'L' for c in v[2])]
+        if cands_:
+            v = rng.choice(cands_)
+            j = rng.choice([k for k, c in enumerate(v[2]) if c[0] == 'L'])
+            new_leaf = rng.choice(nc.LEAVES)
+            became = tuple(new_leaf if k == j else shape_of(c) for k, c in enumerate(v[2]))
+            if rng.random() < 0.5:
+                skeys[v[2][j][2]] = impl.from_shape(new_leaf)
+            elif not any(v[2][j][1] == i for i in idkeys):
+                idkeys[v[2][j][1]] = impl.from_shape(new_leaf)
+            skeys[became] = rng.choice([None, impl.from_shape('z'), impl.from_shape(('h', 'z'))])
+    if rng.random() < 0.15:
+        # nested chain (not (not (not p))) with key (not (not p)) -> (not p)
+        forest.append(impl.from_shape(('not', ('not', ('not', 'p')))))
+        vals.append(of_impl(forest[-1]))
+        skeys[('not', ('not', 'p'))] = impl.from_shape(('not', 'p'))
     # replacements that contain another structural key
     if skeys and idkeys and rng.random() < 0.5:
         i = rng.choice(list(idkeys))
